@@ -512,8 +512,15 @@ class SpecEval(object):
             return VInt(-v.t)
         raise SpecError('spec: unary op')
 
+    def ev_guarded(self, x, e):
+        """operand of and/or/implies: a read through None makes only this operand undefined"""
+        try:
+            return self.as_bool(self.ev(x, e), e)
+        except NoneDeref:
+            return z3.Bool(fresh_name('undef'))
+
     def ev_BoolOp(self, n, e):
-        vs = [self.as_bool(self.ev(x, e), e) for x in n.values]
+        vs = [self.ev_guarded(x, e) for x in n.values]
         return VBool(z3.And(vs) if isinstance(n.op, ast.And) else z3.Or(vs))
 
     def ev_IfExp(self, n, e):
@@ -595,8 +602,8 @@ class SpecEval(object):
                 s, _ = as_seq(v, e.st)
                 return VInt(z3.Length(s))
             if f == 'implies':
-                a = self.as_bool(self.ev(n.args[0], e), e)
-                b = self.as_bool(self.ev(n.args[1], e), e)
+                a = self.ev_guarded(n.args[0], e)
+                b = self.ev_guarded(n.args[1], e)
                 return VBool(z3.Implies(a, b))
             if f == 'isnone':
                 return VBool(is_none(self.ev(n.args[0], e)))
